@@ -33,7 +33,7 @@ ASSUMPTIONS = [
     "failures of begin_read/begin_write (file deleted under the handle) are not among the listed failure sources",
 ]
 REQUIRED = {"mp.sessions": 200, "mp.writer-sessions": 100, "mp.reader-between-writers": 5, "mp.cross-process-adjacent": 50,
-            "seq.sequences": 1000, "mp.schedules-with-racing-creation": 2, "lateopen.schedules": 4, "locktimeout.schedules": 2, "longlived.histories": 15, "longlived.other-process-sessions": 20, "longlived.own-sessions-ended-by-rejected-record": 3, "longlived.library-recreated-under-live-handles": 2, "fail.cases": 30, "fail.fresh-process-acquired": 30}
+            "seq.sequences": 1000, "mp.schedules-with-racing-creation": 2, "lateopen.schedules": 4, "locktimeout.schedules": 2, "longlived.histories": 15, "longlived.other-process-sessions": 20, "longlived.own-sessions-with-a-rejected-record": 3, "longlived.library-recreated-under-live-handles": 2, "fail.cases": 30, "fail.fresh-process-acquired": 30}
 CHUNK_TIMEOUT = 600
 TECHNIQUE = ("runtime monitoring: recorded session-interval histories from real processes + offline checker (mutual exclusion, "
              "conservation, visibility); fault injection at each session step with a fresh-process lock probe")
@@ -483,6 +483,8 @@ def run_longlived(spec, ctx):
                     if not ok[0]:
                         break
                     ctx.count("longlived.own-sessions")
+                    if with_dup:
+                        ctx.count("longlived.own-sessions-with-a-rejected-record")     # refused at the put or at the exit flush
                     if session_error is not None:
                         if not with_dup or raised_at_put:
                             v(f"own-session-raises:{type(session_error).__name__}", err=repr(session_error)[:200],
